@@ -78,13 +78,15 @@ Proof. induction sh as [|d sh IH]; intros Hp [|i idx] H; cbn in H; try tauto; tr
 
 (** [nd_memo] preserves the shape and every element (at every multi-index, in range or not) *)
 Lemma nd_memo_shape A : shape (nd_memo A) = shape A.
-Proof. reflexivity. Qed.
+Proof. unfold nd_memo. now destruct (forallb _ _). Qed.
 
-Lemma nd_memo_get A idx : (forall d, In d (shape A) -> 0 <= d) -> get (nd_memo A) idx = get A idx.
-Proof. intro Hp. unfold nd_memo; cbn [get]. destruct (in_rangeb (shape A) idx) eqn:E; [|reflexivity].
+Lemma nd_memo_get A idx : get (nd_memo A) idx = get A idx.
+Proof. unfold nd_memo. destruct (forallb (fun d => 0 <=? d) (shape A)) eqn:Hp; [|reflexivity].
+  assert (Hp' : forall d, In d (shape A) -> 0 <= d) by (intros d Hd; rewrite forallb_forall in Hp; specialize (Hp d Hd); lia).
+  cbn [get]. destruct (in_rangeb (shape A) idx) eqn:E; [|reflexivity].
   apply in_rangeb_spec in E. unfold ravel, nthq.
   destruct (flat_index_acc (shape A) idx 0 E) as [_ B].
-  pose proof (all_idx_length (shape A) Hp) as HL.
+  pose proof (all_idx_length (shape A) Hp') as HL.
   rewrite nth_indep with (d' := get A nil) by (rewrite map_length; lia).
   rewrite map_nth. now rewrite all_idx_nth. Qed.
 
@@ -95,6 +97,8 @@ Definition memo_ok (memo : nd -> nd) : Prop :=
 
 Lemma memo_ok_id : memo_ok (fun A => A).
 Proof. intro A. split; reflexivity. Qed.
+Lemma memo_ok_nd_memo : memo_ok nd_memo.
+Proof. intro A. split; [apply nd_memo_shape|apply nd_memo_get]. Qed.
 
 (** pointwise equality of arrays *)
 Definition nd_eq (A B : nd) : Prop := shape A = shape B /\ forall idx, get A idx = get B idx.
